@@ -29,8 +29,8 @@ ASSUMPTIONS = [
     "constructs a sender may not emit but RFC 9112 lets a recipient tolerate (BWS, malformed-but-clean extensions or "
     "trailer lines) may be rejected or decoded; when decoded the body must be the reference's",
 ]
-MIN = {"quick": {"evaluations": 3000000, "nontrivial": 60000, "outcomes": 8},
-       "thorough": {"evaluations": 10000000, "nontrivial": 60000, "outcomes": 8}}
+MIN = {"quick": {"evaluations": 3700000, "nontrivial": 160000, "outcomes": 9},
+       "thorough": {"evaluations": 20000000, "nontrivial": 160000, "outcomes": 9}}
 
 SIZES = [1, 2, 10, 16]
 SEQS = [()] + [s for k in (1, 2, 3) for s in itertools.product(SIZES, repeat=k)]
